@@ -19,7 +19,7 @@ import sys
 import time
 
 from . import bounds_pool, bounds_render
-from .common import (MachineryError, NCPU, SPEC, Scratch, chunks, dump_json, run_parallel, run_tlc, write_cfg)
+from .common import (MachineryError, NCPU, SPEC, VERIF, Scratch, chunks, dump_json, run_parallel, run_tlc, write_cfg)
 
 LEVEL = "model_checking"
 
@@ -124,6 +124,32 @@ def _check_wideval(sc, name, cases):
     if not res.clean or len(summ) != 1 or summ[0]["cases"] != len(cases):
         raise MachineryError("WideEval shard %s did not complete:\n%s" % (name, res.error_trace_tail(60)))
     return res, summ[0], [o for o in out if isinstance(o, dict) and "clause" in o]
+
+
+def _wideval_report(chk, sc, rec, defs, n_env, first_fails, tag):
+    """Confirms the wideval failures of one case in isolation and reports those that show again."""
+    from . import bounds_cpp
+    sub = Scratch.__new__(Scratch)
+    sub.path = sc.sub("confirm-" + tag)
+    wcases, wfail = bounds_cpp.evaluate(sub, [rec], defs, n_env=n_env, nproc=1)
+    if wfail:
+        raise MachineryError("wideval: case %s was driven before but not in isolation: %r" % (rec["id"], wfail[0][:2]))
+    _res, _summ, again = _check_wideval(sc, "confirm-" + tag, wcases)
+    key = lambda f: (f["env"], f["clause"], json.dumps(f.get("got"), sort_keys=True))
+    if {key(f) for f in again} != {key(f) for f in first_fails}:
+        keep = os.path.join(os.environ.get("VERIF_REPLAY_DIR") or os.path.join(VERIF, "replays"), "C05-wideval-unconfirmed-%s" % tag)
+        shutil.rmtree(keep, ignore_errors=True)
+        shutil.copytree(os.path.join(sc.path, "wideval"), keep, ignore=shutil.ignore_patterns("*.emb.h"))
+        raise MachineryError("wideval: the failure of case %s did not show again when the case was driven alone (first: %r, alone: %r); "
+                             "driver sources and outputs kept in %s" % (rec["id"], first_fails[:2], again[:2], keep))
+    case = wcases[0]
+    for f in again:
+        env = case["envs"][f["env"] - 1]
+        vals = {v["n"]: (-1 if v["neg"] else 1) * bounds_render.limbs_to_int(v["l"]) for v in env["vals"]}
+        chk.violation("wideval:%s:%s" % (f["clause"], rec["e"].get("fn", rec["e"]["k"])),
+                      "generated C++ computes a different value than the expression denotes: %s with %s: reference %s, "
+                      "implementation %s\n%s" % (bounds_render.expr(rec["e"]), vals, f["want"], f["got"], rec["emb"]),
+                      {"case": {k: v for k, v in rec.items() if k != "trees"}, "env": vals, "failure": f, "wideval": True})
 
 
 def _exception_key(rec):
@@ -381,18 +407,17 @@ def run(chk, only=None):
                 wshards = [wcases[k::4] for k in range(4) if wcases[k::4]]
                 wjobs = [(lambda k=k, part=part: _check_wideval(sc, "we%d" % k, part)) for k, part in enumerate(wshards)]
                 nev = 0
+                wfails = []
                 for res, summ, fails in run_parallel(wjobs, nproc=4):
                     chk.add_tlc(res, part="validate-wideval")
                     nev += summ["evals"]
-                    for f in fails:
-                        rec = by_id[f["id"]]
-                        case = next(c for c in wcases if c["id"] == f["id"])
-                        env = case["envs"][f["env"] - 1]
-                        vals = {v["n"]: (-1 if v["neg"] else 1) * bounds_render.limbs_to_int(v["l"]) for v in env["vals"]}
-                        chk.violation("wideval:%s:%s" % (f["clause"], rec["e"].get("fn", rec["e"]["k"])),
-                                      "generated C++ computes a different value than the expression denotes: %s with %s: reference %s, "
-                                      "implementation %s\n%s" % (bounds_render.expr(rec["e"]), vals, f["want"], f["got"], rec["emb"]),
-                                      {"case": {k: v for k, v in rec.items() if k != "trees"}, "env": vals, "failure": f})
+                    wfails.extend(fails)
+                # A defect of the generated code is deterministic: every failing case is driven and judged once more, alone in
+                # a translation unit of its own; only a failure that shows again is reported (one that does not is a failure
+                # of this machinery and stops the check with its artefacts kept).
+                for fid in sorted({f["id"] for f in wfails}):
+                    rec = by_id[fid]
+                    _wideval_report(chk, sc, rec, defs, t.get("wideval_envs", 6), [f for f in wfails if f["id"] == fid], "c%d" % fid)
                 totals["wideval_evals"] = nev
                 chk.extra["wideval"] = {"accepted_cases_driven": len(wcases), "evaluations": nev}
             mark("wideval")
@@ -433,6 +458,9 @@ def replay(chk, path):
     with open(path) as f:
         rp = json.load(f)
     case = rp["case"]
+    wideval = isinstance(case, dict) and case.get("wideval")
+    if wideval:
+        case = case["case"]
     if not case or "e" not in case:
         raise MachineryError("replay file has no case")
     case = {k: case[k] for k in ("fam", "vars", "e", "ty", "pos")}
@@ -442,6 +470,20 @@ def replay(chk, path):
                                                      FullConsts="FALSE"),
                                   None, 0)
         recs = bounds_pool.compile_cases([case], defs, nproc=1)
+        if wideval:
+            chk.traces = 1
+            if recs[0]["status"] != "accepted":
+                raise MachineryError("the replayed wide case is no longer accepted")
+            from . import bounds_cpp
+            wcases, wfail = bounds_cpp.evaluate(sc, recs, defs, n_env=TIERS["thorough"].get("wideval_envs", 6), nproc=1)
+            if wfail:
+                chk.violation("wideval:%s" % wfail[0][0].lower(), str(wfail[0][1])[-2000:], {"case": case, "wideval": True})
+                return
+            res, summ, fails = _check_wideval(sc, "r", wcases)
+            chk.add_tlc(res, part="replay-wideval")
+            if fails:
+                _wideval_report(chk, sc, recs[0], defs, TIERS["thorough"].get("wideval_envs", 6), fails, "r")
+            return
         module = "BoundsCheck" if case["fam"] == "small" else "BoundsWide"
         res, summ, fails = _check_shard(sc, module, "r", recs)
         chk.add_tlc(res, part="replay")
